@@ -203,11 +203,28 @@ def main(argv=None):
         continue
       key = f"{r['cid']}::{o['oid']}"
       in_base = key in base.get('discharged', [])
-      if o['verdict'] == 'sat' and in_base:
-        violations.append((f"obligation {key} was discharged on the baseline tree and is now "
-                           f"refuted by the solver ({o['desc']})",
-                           dict(property=prop, harness=None, obligation=dict(id=key, **o)),
+      base_hash = base.get('hashes', {}).get(r['cid'])
+      # The deciding step of the technique: an obligation generated from the function's *current*
+      # text that was discharged on the baseline tree and no longer is.  It is reported as the
+      # violation only when the text of that very function changed since the baseline (callers are
+      # checked against callee contracts, so nothing else can make it fail) — on an unchanged
+      # function an `unknown` can only be solver budget / load and stays UNPROVED.
+      changed = base_hash is not None and r.get('hash') is not None and r['hash'] != base_hash
+      if in_base and (o['verdict'] == 'sat' or changed):
+        how = 'refuted by the solver' if o['verdict'] == 'sat' else \
+            f"no longer discharged (verdict {o['verdict']}: {str(o.get('reason') or '')[:120]})"
+        violations.append((f"obligation {key} ({o['desc']}) was discharged on the baseline tree and is now "
+                           f"{how}; the text of {r['cid']} changed (source hash {base_hash} -> {r.get('hash')})"
+                           if changed else
+                           f"obligation {key} was discharged on the baseline tree and is now {how} ({o['desc']})",
+                           dict(property=prop, harness=None, failed_obligation=key,
+                                function=r['cid'], source_hash_baseline=base_hash, source_hash_now=r.get('hash'),
+                                obligation=dict(id=key, **o),
+                                verifier_output=dict(verdict=o['verdict'], reason=o.get('reason'), solvers=o.get('solvers'),
+                                                     queries=o.get('queries'), seconds=o.get('time'), model=o.get('model'))),
                            ' no-failing-input-found'))
+        unproved.append(dict(function=r['cid'], obligation=o['oid'], verdict=o['verdict'],
+                             reason=o.get('reason') or o['desc'], in_baseline=in_base))
       else:
         unproved.append(dict(function=r['cid'], obligation=o['oid'], verdict=o['verdict'],
                              reason=o.get('reason') or o['desc'], in_baseline=in_base))
@@ -243,8 +260,12 @@ def main(argv=None):
   # replayed input (the input comes from the bounded harness of the same property)
   regressed = [f"{u['function']}::{u['obligation']}" for u in unproved
                if u.get('in_baseline') and u.get('obligation')]
+  # at most 4 violations with a replayable input and 2 failed obligations without one are written
+  with_input = [v for v in violations if not v[2]][:4]
+  without = [v for v in violations if v[2]][:2]
+  to_show = with_input + without
   for what, payload, suffix in violations:
-    if shown < 5:
+    if any(what is w for w, _, _ in to_show):
       payload = dict(payload, failed_obligations=regressed)
       path = write_replay(prop, shown, payload)
       print(f'VIOLATION property={prop} replay={path}{suffix}')
@@ -308,6 +329,11 @@ def main(argv=None):
         if o['verdict'] == 'unsat':
           cur.add(f"{r['cid']}::{o['oid']}")
     b['discharged'] = sorted(cur)
+    hs = dict(b.get('hashes', {}))
+    for r in pyvc_results:
+      if r.get('hash'):
+        hs[r['cid']] = r['hash']
+    b['hashes'] = dict(sorted(hs.items()))
     os.makedirs(os.path.join(ROOT, 'baseline'), exist_ok=True)
     json.dump(b, open(os.path.join(ROOT, 'baseline', 'obligations.json'), 'w'), indent=0)
   print(f'{prop}: level={level} obligations={n_dis}/{n_obl} functions={len(fn_rows)} '
